@@ -145,7 +145,13 @@ def wire_legality(log, ep, role, lenient_unknown=False):
                 continue
             # another frame type in the middle of our fragmented frame: judged by C05; role rules still apply below
         if st.over is not None:
-            bad('nothing-after-termination', st, f, st.over)
+            if st.kind == 'channel' and st.over in ('after-own-cancel', 'after-peer-error', 'after-own-error'):
+                # one history class whatever the frame type: the channel was terminated by ERROR / requester CANCEL
+                # and the endpoint keeps using it (see known findings: half-close semantics)
+                out.append(('C08.nothing-after-termination', 'C08.nothing-after-termination | %s/channel | any-frame | %s' % (st.role, st.over),
+                            '%s emitted %r (%s)' % (ep, f, st.over)))
+            else:
+                bad('nothing-after-termination', st, f, st.over)
             continue
         if f.type not in ALLOWED[(st.kind, st.role)]:
             bad('frame-type-for-role', st, f, 'not-allowed')
